@@ -11,5 +11,6 @@ CONSTANTS Kinds = {"plain"}
           CoreServers = {}
           Slice = 25
           Seed = 1
+          DesignAll = TRUE
 INVARIANTS DesignOK Emit
 CHECK_DEADLOCK FALSE
